@@ -215,6 +215,35 @@ def gen_cases(tier, seed):
         ops.append(C(3, "set p9 v9")); ops.append(C(3, "get p9"))
         cases.append(("w%d" % i, ["P"], ops))
     dist["stale_subscriptions"] = ns
+    # arbiter lifecycles: conflicts queued, answered, the arbiter leaving and a fresh one registering while resolved / unresolved /
+    # hand-written records exist (register_arbiter walks and cleans the $conflicts_ records), each step followed by the probes;
+    # the hand-written records carry non-numeric ids so that they sort the same way beside wall-clock and model op ids
+    na = {"quick": 300, "thorough": 5000, "search": 300}[tier]
+    for i in range(na):
+        ops = list(setup) + [C(1, "use-db d3 tok3"), C(2, "use-db d3 tok3"), C(2, "set c v0"), C(2, "set c v1")]
+        arb, nxt, nnot = 1, 4, 0
+        for j in range(rng.randint(4, 12)):
+            r = rng.random()
+            if r < 0.2:
+                ops.append(C(arb, "arbiter"))
+            elif r < 0.45:
+                ops.append(C(2, "set-safe c %d s%d" % (rng.choice([0, 0, 1, 2]), j))); nnot += 1
+            elif r < 0.55:
+                ops.append(C(2, "set c p%d" % j))
+            elif r < 0.75:
+                ops.append(["rsv", str(arb), str(rng.randint(0, max(0, nnot))), hexs("R%d" % j)])
+            elif r < 0.85:
+                ops += [["disc", str(arb)], ["conn"], C(nxt, "use-db d3 tok3"), C(nxt, "arbiter")]
+                arb = nxt; nxt += 1
+            elif r < 0.92:
+                ops.append(C(2, rng.choice(["set $conflicts_c_z%d resolved z" % j, "set $conflicts_c_y%d resolve zz d3 1 c a b" % j, "set $conflicts_zz_z resolved y"])))
+            else:
+                ops.append(C(2, rng.choice(["get-safe c", "keys $conflicts", "remove c"])))
+            ops.append(C(3, "set p%d v%d" % (j, j)))
+            ops.append(C(3, "get p%d" % j))
+            ops.append(C(2, "get-safe c"))
+        cases.append(("a%d" % i, ["P"], ops))
+    dist["arbiter_lifecycles"] = na
     return cases, dist
 
 
